@@ -6,17 +6,53 @@ TRUST = ('pyvc encoding of the Python subset; assumed contracts of CPython built
          '(signature model, PyBind, slice primitives) cross-checked by enumeration; z3/cvc5; '
          'bounded layer B covers only its stated bound')
 
+TECH = 'contract-based deductive verification of the real functions (AST->z3 VCs, pyvc) + bounded executable contracts (layer B)'
+
+def _c(text, ref):
+  return dict(cat='other', tech=TECH, text=text, ref=ref)
+
 CLAIMED = {
-    'C01': dict(cat='other', tech='contract-based deductive verification (AST->z3 VCs, pyvc) + bounded executable contracts',
-                text='pyvc discharges, for all signatures and stores, the obligations of the functions that carry the '
-                     'binding (SignatureInfo kernel: transform_to_args_kwargs, get_default, index_to_key, ...); the '
-                     'end-to-end clause build == direct call is a bounded exhaustive enumeration (signatures <=4/5 '
-                     'params) and is labelled bounded in the evidence.', ref='§5 C01'),
-    'C03': dict(cat='other', tech='contract-based deductive verification (AST->z3 VCs, pyvc) + bounded executable contracts',
-                text='class invariant Canon + per-operation contracts against the list/dict reference model, '
-                     'discharged by pyvc for the functions listed in the evidence; operations not (yet) proved are '
-                     'covered by exhaustive small-scope enumeration against the reference model (bounded).',
-                ref='§5 C03'),
+    'C01': _c('pyvc discharges, for all signatures and stores, the obligations of the functions that carry the binding '
+              '(SignatureInfo.__post_init__, get_default, _append_defaults, transform_to_args_kwargs, index_to_key, '
+              'Buildable.__getitem__): slot i of *args is parameter i with its stored value else its default, TypeError iff '
+              'a needed slot has neither, nothing dropped, input store unchanged. The end-to-end clause build == direct '
+              'call (through the traversal and call_buildable) is a bounded exhaustive enumeration and is labelled so.', '§5 C01'),
+    'C02': _c('bounded: invocation log and canonical form of the built graph vs an independent evaluation on every DAG shape '
+              '<= 3-4 nodes, equal-but-distinct nodes, temporaries of registered node types, two builds, chains. '
+              'Deductive part: see evidence (functions under contract for the memo discipline).', '§5 C02'),
+    'C03': _c('class invariant Canon (BInv) + per-operation contracts against the list/dict reference model, discharged by '
+              'pyvc for _arguments_set_value/_del_value, __setattr__, __delattr__, __getitem__, _set_item_by_index and the '
+              'SignatureInfo kernel; __delitem__, _set_item_by_slice, __setitem__ dispatch, __getattr__ are covered by '
+              'exhaustive small-scope enumeration against the reference model (bounded, labelled).', '§5 C03'),
+    'C04': _c('pyvc: the PK-by-keyword clause of transform_to_args_kwargs (overridable at call time); bounded: identity sets '
+              'across calls for every Partial/ArgFactory nesting and every (signature, store) vs a functools.partial reference.', '§5 C04'),
+    'C05': _c('bounded crash-point enumeration: every Buildable node of every small DAG as the failing node x exception-class '
+              'shapes x diagnostic-formatting failure x repeated failures; deductive part per evidence.', '§5 C05'),
+    'C06': _c('pyvc: get_default (unset vs explicit default for every store key); bounded: all ordered pairs of equality-preserving '
+              '/ -breaking rewrites on every (signature, store), symmetry, transitivity pool, congruence with build, sharing.', '§5 C06'),
+    'C07': _c('bounded: canonical form + identity disjointness for every pool configuration x copier x edit sequence <= 2/3; '
+              'deductive part per evidence.', '§5 C07'),
+    'C08': _c('bounded: path multisets / memoized visits / all-paths queries vs an independent expansion on every DAG shape; '
+              'identity traversal canonical form; cycles; deductive part per evidence.', '§5 C08'),
+    'C09': _c('bounded: leaf domain (ints, floats, escape-like str/bytes, enums, sets, ...) and pool configurations through '
+              'dump/load with recording policies; deductive part per evidence.', '§5 C09'),
+    'C10': _c('bounded: apply_diff(build_diff(old,new), copy(old)) == new on pairs related by <= 2/3 edits, sharing pairs, '
+              'unrelated pairs; two known findings (positional arguments, modification inside tuples).', '§5 C10'),
+    'C14': _c('pyvc: TaggedValue expansion in _arguments_set_value, history of tag updates (add_updated_tags, update_tags); '
+              'bounded: set_tagged / select(tag).replace / list_tags vs an independent walk, survival through copy/cast/JSON, '
+              'tag-operation sequences vs a dict model.', '§5 C14'),
+    'C15': _c('bounded: yielded identity multiset vs independent walk + spec predicate, .set/.replace effects, identity of '
+              'non-matching nodes on DAG shapes <= 3 with class hierarchies; deductive part per evidence.', '§5 C15'),
+    'C16': _c('pyvc: history.new_value/deleted_value/update_tags (sequence id = counter, counter+1), History.add_* (exactly one '
+              'entry iff tracking enabled), _arguments_set_value/_del_value, __setattr__/__delattr__, _set_item_by_index '
+              '(one store write => one entry); bounded: history invariant after every C03 edit, suspension, locations. '
+              'Uniqueness across threads rests on the atomicity of next() (assumed). One known finding (tag-edit location).', '§5 C16'),
+    'C17': _c('pyvc: frame conditions (input store unchanged) of transform_to_args_kwargs and __getitem__; bounded: 44 API entry '
+              'points x pool configurations, canonical form + identity map before = after.', '§5 C17'),
+    'C18': _c('bounded: flattened printer paths vs override parser on the property domain, directive sequences vs sequential '
+              'application, serializer round trips; deductive part per evidence.', '§5 C18'),
+    'C20': _c('pyvc: get_default (== is kept when defaults are materialized/trimmed); bounded: build(t(cfg)) structurally equal to '
+              'build(cfg) for each transformation on the extended pool, idempotence, serializability.', '§5 C20'),
 }
 NA = {
     'C11': 'quantifies over programs: needs a formal semantics of rewritten Python programs, no per-function contract expresses it',
@@ -24,7 +60,7 @@ NA = {
     'C13': 'about the behaviour of an emitted fiddler program; outside function contracts',
     'C19': 'quantifies over schedules; a sequential function-contract verifier has no notion of interleaving',
 }
-PENDING = 'check not built yet in this session (planned, see DESIGN.md §5); not claimed until it exists'
+PENDING = 'not claimed'
 ALL = [f'C{i:02d}' for i in range(1, 21)]
 
 
